@@ -196,7 +196,7 @@ def sampled(seed, key, rate):
     return int.from_bytes(h[:4], "big") % rate == 0
 
 
-QUICK_RATE = {6: 40, 7: 8, 8: 60}
+QUICK_RATE = {6: 60, 7: 12, 8: 120}
 PREFIX_LEN = {2: 0, 3: 0, 4: 0, 5: 0, 6: 1, 7: 2, 8: 2}
 
 
@@ -728,6 +728,6 @@ FACETS = [
     Facet("graphs", graph_case, check_graph_case, setup=_setup,
           rule=">= 4 nodes", quick=(8, 500), thorough=(16, 5000)),
     Facet("registrations", reg_case, check_registrations, setup=_setup,
-          rule="at least one registration between two conversions", quick=(16, 12), thorough=(32, 16),
+          rule="at least one registration between two conversions", quick=(16, 10), thorough=(32, 16),
           shrink_quick=False, case_timeout=300),
 ]
